@@ -18,6 +18,10 @@ claimed = {
    text="the library's real receive filter and sendto checks are run on k datagrams of symbolic length 0..2048 and content (broadcast route) or one such datagram (udp/tcp routes): a result implies a 64-byte datagram with the right protocol id, function code and serial number, it is the first such datagram, its content is what is decoded, anything else fails the call; SetAddress consumes nothing",
    note="bounds: k <= 2 datagrams quick, <= 4 thorough (longer sequences argued from the loop being memoryless); representative operations GetCards, OpenDoor, GetStatus; the ut0311 socket loop itself is not encoded (seam level). " + TRUST,
    ref="DESIGN.md section 6 C03"),
+ "C04": dict(
+   text="every runtime panic of the interpreted code (index and slice bounds, nil dereference, nil-map write, failed type assertion, division by zero, explicit panic, reflect misuse) is a solver obligation in the engine; the harnesses drive the 30 reply-bearing operations with an arbitrary reply of symbolic length 0..2048 on four routes (broadcast filter, UDP, TCP nil reply, transport error), then render the result with String() and JSON; plus the codec and dispatcher entry points, discovery and the listener's datagram handler on arbitrary byte strings, and arbitrary argument values",
+   note="rendering uses opaque text for numbers (only panics are checked); marshal/String methods of standard-library types (net.IP, netip.AddrPort) are trusted; fmt recovers panics in String methods it calls, so every returned value's String() and those of its exported fields are called directly; years outside 0..9999 are outside the time model. " + TRUST,
+   ref="DESIGN.md section 6 C04"),
  "C05": dict(
    text="for each of the 65 message struct types a reflection-driven harness fills every field with a symbolic in-domain value, runs codec.Marshal then codec.Unmarshal and asserts field-wise equality; for 8 (quick) / 65 (thorough) types two symbolic buffers that agree on all field bytes are asserted to decode to equal values; UnmarshalRequest/UnmarshalResponse are run on a header with symbolic length, protocol id and function code (33-way case split decided by the solver)",
    note="zone = any fixed offset; years 1..9999 plus the zero values; SystemDate 2000..2068; dispatcher bodies are zero bytes (body decoding is C02/C04); the field-byte mask is derived from the layout tags. " + TRUST,
@@ -46,6 +50,10 @@ claimed = {
    text="havoc-after: after construction / the call / the clone, every settable cell reachable from the caller's data or from the transport buffer is overwritten with fresh solver variables and the routing decision, arguments or results are asserted unchanged; a shared cell shows up as a satisfiable difference",
    note="covers NewUHPPOTE + DeviceList, PutCard/SetTimeProfile/SetAddress/ActivateKeypads arguments, GetDevice/GetCardByIndex/GetListener results, Device.Clone and Card.Clone; door-name slices reachable through DeviceList are not part of the property (routing only). " + TRUST,
    ref="DESIGN.md section 6 C17"),
+ "C18": dict(
+   text="layouts are built at run time with reflect.StructOf (mapped to go/types structs by the engine): every single-field layout over 18 field kinds (8/16/32-bit integers, bool, IPv4, address:port, raw and typed MAC, serial number, PIN, version, date, date-time, system date/time, HH:mm, *Date, *HHmm) at the boundary offsets (quick) or every offset where the field fits (thorough); with symbolic field values Marshal must write exactly the field bytes and zero elsewhere, Unmarshal must return the value, no panic obligation may be feasible and havoc of the input buffer must leave the decoded value unchanged",
+   note="multi-field / embedded layouts are covered by the 65 shipped message types in C05 and a hand-written sample; value tags by the shipped messages. " + TRUST,
+   ref="DESIGN.md section 6 C18"),
 }
 
 not_applicable = {
